@@ -129,7 +129,7 @@ Proof.
   rewrite rd_PD. rewrite lookup_rd by (apply nodupb_sound; reflexivity).
   cbn [lookup String.eqb Ascii.eqb Bool.eqb].
   (* dict2crystalmap *)
-  unfold dict2crystalmap, getD. rewrite rd_PD. rewrite !lookup_rd by (apply nodupb_sound; reflexivity).
+  unfold dict2crystalmap_dt, getD. rewrite rd_PD. rewrite !lookup_rd by (apply nodupb_sound; reflexivity).
   cbn [lookup String.eqb Ascii.eqb Bool.eqb].
   rewrite (rd_PD hdr), (rd_PD (base ++ props)).
   rewrite (rd_items_nn (base ++ props)) by (rewrite forallb_app, Hnn_base, Hnn_props; reflexivity).
@@ -143,6 +143,10 @@ Proof.
                  lookup k (sortk (map R (base ++ props))) = Some (rd v)).
   { intros k v Hv. rewrite lookup_sortk by exact Hnd_data. unfold R. rewrite lookup_map.
     rewrite (lookup_app_l _ _ _ _ Hv). reflexivity. }
+  (* more than one point: "id" is read as an array, so no point axis has to be restored (repair 4fb3c89) *)
+  assert (Hrs : forall dts, restore_point_axis dts (sortk (map R (base ++ props))) = sortk (map R (base ++ props))).
+  { intros dts. unfold restore_point_axis. rewrite (Hlk "id"%string _ eq_refl). cbn [rd]. rewrite unwrap_id by exact Hn. reflexivity. }
+  cbn [option_map]. rewrite Hrs.
   unfold getA. rewrite (Hlk "phi1"%string _ eq_refl), (Hlk "Phi"%string _ eq_refl), (Hlk "phi2"%string _ eq_refl).
   cbn [rd]. rewrite !unwrap_id by exact Hn. cbn [a_d a_sh].
   rewrite shape_eqb'_refl. cbn [andb negb].
